@@ -28,6 +28,7 @@ import (
 	"net/http"
 	"os"
 	"regexp"
+	"sort"
 	"strconv"
 	"strings"
 	"sync"
@@ -977,16 +978,33 @@ func (m *lfsModule) handleHTTPUploadComplete(w http.ResponseWriter, r *http.Requ
 		return
 	}
 
-	completed := make([]types.CompletedPart, 0, len(req.Parts))
+	listed := make(map[int32]struct{}, len(req.Parts))
 	for _, part := range req.Parts {
 		etag, ok := session.Parts[part.PartNumber]
 		if !ok || etag == "" || part.ETag == "" || etag != part.ETag {
 			m.lfsWriteHTTPError(w, requestID, session.Topic, http.StatusBadRequest, "invalid_part", "part etag mismatch")
 			return
 		}
+		listed[part.PartNumber] = struct{}{}
+	}
+	// The envelope describes every byte the session received (size and hashes
+	// are accumulated per uploaded part), so the object must be assembled from
+	// every uploaded part: the client's list has to name them all, and the
+	// completion uses the server-side record of the parts.
+	if len(listed) != len(session.Parts) {
+		m.lfsWriteHTTPError(w, requestID, session.Topic, http.StatusBadRequest, "invalid_part", "completion must list every uploaded part")
+		return
+	}
+	partNumbers := make([]int32, 0, len(session.Parts))
+	for n := range session.Parts {
+		partNumbers = append(partNumbers, n)
+	}
+	sort.Slice(partNumbers, func(i, j int) bool { return partNumbers[i] < partNumbers[j] })
+	completed := make([]types.CompletedPart, 0, len(partNumbers))
+	for _, n := range partNumbers {
 		completed = append(completed, types.CompletedPart{
-			ETag:       aws.String(part.ETag),
-			PartNumber: aws.Int32(part.PartNumber),
+			ETag:       aws.String(session.Parts[n]),
+			PartNumber: aws.Int32(n),
 		})
 	}
 
